@@ -14,7 +14,8 @@ Instruction semantics: `Ebv.Ebpf` (validated three-way).  Proof chain:
 * `assign_correct_reg`, `assign_correct_mem`, `stmts_correct`, `C01_partial` below: statements and programs, in
   terms of `Ebpf.run`;
 * `*_refuted`: the defect classes of the unchanged generator, each on a concrete witness;
-* `before_fix_sum_minus`: regression witness of a repaired class (`Sum - expression`). -/
+* `before_fix_*`: regression witnesses of the repaired classes (`Sum - expression`, `abs` in 32 bits, unary operators
+  in place, unary operators in 32 bits inside a 64-bit computation). -/
 namespace Ebv.C01
 open Ebv.Ebpf Ebv.Gen
 
@@ -90,15 +91,12 @@ theorem leavesOwnedB_sound {o : List Nat} : ∀ {e : Expr}, leavesOwnedB o e = t
   | mem f a ih => intro h; exact ih h
 
 /-- **the part of the language the theorem covers, with the defect classes excluded** (decidable): well-typed
-(every register read is owned), inside the proved fragment, and in none of the classes `unary-in-place`,
-`narrow-reg-in-64`, `unary-32-in-64` -/
+(every register read is owned), inside the proved fragment, and not in the class `narrow-reg-in-64` -/
 def CStmt.ok (o : List Nat) : CStmt → Bool
   | .reg no long e =>
-    leavesOwnedB o e && e.frag && e.ringOnly && !unaryInPlace e true && !narrowIn64 e long true (.reg no) &&
-      !neg32in64 e long
+    leavesOwnedB o e && e.frag && e.ringOnly && !narrowIn64 e long true (.reg no)
   | .mem fmt base _ e =>
-    o.contains base && leavesOwnedB o e && e.frag && e.ringOnly && !unaryInPlace e false &&
-      !narrowIn64 e fmt.isLong false .any && !neg32in64 e fmt.isLong
+    o.contains base && leavesOwnedB o e && e.frag && e.ringOnly && !narrowIn64 e fmt.isLong false .any
 
 /-- `owners` after the statement -/
 def CStmt.owners (o : List Nat) : CStmt → List Nat
@@ -136,14 +134,14 @@ theorem stmt_correct (s : CStmt) (g g' : GenState) (hok : s.ok g.owners = true) 
   | reg no long e =>
     simp only [CStmt.emit] at h
     simp only [CStmt.ok, Bool.and_eq_true, Bool.not_eq_true'] at hok
-    obtain ⟨⟨⟨⟨⟨h1, h2⟩, h3⟩, h4⟩, h5⟩, h6⟩ := hok
-    have hp : PreReg e no long g := ⟨leavesOwnedB_sound h1, h2, h4, h5, h6⟩
+    obtain ⟨⟨⟨h1, h2⟩, h3⟩, h5⟩ := hok
+    have hp : PreReg e no long g := ⟨leavesOwnedB_sound h1, h2, h5⟩
     exact ⟨assign_correct_reg e no long g g' hp h3 h, (setReg_correct e no long g g' hp h).2⟩
   | mem fmt base off e =>
     simp only [CStmt.emit] at h
     simp only [CStmt.ok, Bool.and_eq_true, Bool.not_eq_true'] at hok
-    obtain ⟨⟨⟨⟨⟨⟨h0, h1⟩, h2⟩, h3⟩, h4⟩, h5⟩, h6⟩ := hok
-    have hp : PreMem e fmt base g := ⟨by simpa using h0, leavesOwnedB_sound h1, h2, h4, h5, h6⟩
+    obtain ⟨⟨⟨⟨h0, h1⟩, h2⟩, h3⟩, h5⟩ := hok
+    have hp : PreMem e fmt base g := ⟨by simpa using h0, leavesOwnedB_sound h1, h2, h5⟩
     exact ⟨assign_correct_mem e fmt _ base off g g' (sumAddr_asSum base off) hp h3 h,
       (setMem_correct e fmt _ base off g g' (sumAddr_asSum base off) hp h).2⟩
 
@@ -366,8 +364,7 @@ theorem specs_surface (env : List VarLoc) : ∀ (sts : List Stmt) (cs : List CSt
 
 /-- every hypothesis of `C01_partial` as one decidable predicate on the program: surface side conditions (no
 computed addresses), every statement's right-hand side can be built, and every built statement is
-well-typed, inside the proved fragment and in none of the classes *unary-in-place*, *narrow-reg-in-64*,
-*unary-32-in-64* -/
+well-typed, inside the proved fragment and not in the class *narrow-reg-in-64* -/
 def progOk (p : Prog) : Bool :=
   p.stmts.all (·.surfaceOk (layout p.vars)) &&
     (match compileAll (layout p.vars) p.stmts with
@@ -452,38 +449,52 @@ def pGood : Prog := ⟨[1, 3, 4, 10], stdVars,
 example : progOk pGood = true ∧ (emitProg pGood).toOption.isSome = true ∧ (codeOf pGood).length = 18 := by
   decide +kernel
 
-/-- *unary-in-place*: `self.vq = -self.r3` negates r3 itself -/
+/-! ### unary operators work on a copy (repaired: was class *unary-in-place*)
+
+`self.vq = -self.r3`.  Before the fix `Unary.calculate` handed its own arguments on to the operand; an unforced
+`Register.calculate` yields the register itself, so the `NEG` negated the user's r3.  Now the operator asks for a
+register first (`get_free_register(dst)`) and forces its operand into it. -/
 def p1 : Prog := ⟨[1, 3, 10], stdVars, [.set (.var "vq") (.neg (.reg .r 3))]⟩
 def s1 : State := st0 [(3, 1), (10, 4096)]
 
-theorem unary_in_place_refuted :
-    progTyped p1 = true ∧ (emitProg p1).toOption.isSome = true ∧ regAfter (codeOf p1) s1 3 = 18446744073709551615 := by
+/-- what `self.vq = -self.r3` emitted **before the fix** -/
+def before_fix_code1 : List Insn :=
+  [⟨Consts.op_NEG + Consts.op_LONG, 3, 0, 0, 0⟩, ⟨Consts.op_STX + Consts.op_DW, 10, 3, -8, 0⟩]
+
+/-- **regression witness** (formerly `unary_in_place_refuted`): the old code leaves −1 in r3 (it was 1); the repaired
+generator copies r3 into the free register r0 and negates that, `p1` satisfies every hypothesis of `C01_partial`, and
+r3 keeps its value -/
+theorem before_fix_unary_in_place :
+    regAfter before_fix_code1 s1 3 = 18446744073709551615 ∧
+    progOk p1 = true ∧
+    (emitProg p1).toOption = some [⟨Consts.op_MOV + Consts.op_REG + Consts.op_LONG, 0, 3, 0, 0⟩,
+      ⟨Consts.op_NEG + Consts.op_LONG, 0, 0, 0, 0⟩, ⟨Consts.op_STX + Consts.op_DW, 10, 0, -8, 0⟩] ∧
+    regAfter (codeOf p1) s1 3 = 1 := by
   decide +kernel
 
-/-- **the unchanged generator violates the full-strength statement** -/
-theorem C01_full_refuted : ¬ C01_full := by
-  intro h
-  obtain ⟨ht, hacc, hreg⟩ := unary_in_place_refuted
-  obtain ⟨cs, hcs, σ', hrun, hsp⟩ := h p1 (codeOf p1) ht (codeOf_ok p1 hacc) s1
-  have hcs' : compileAll (layout p1.vars) p1.stmts = some [CStmt.mem .q 10 (-8) (.neg (.reg 3 true false))] := by
-    decide +kernel
-  rw [hcs'] at hcs
-  cases hcs
-  simp only [p1, specsS, specS] at hsp
-  obtain ⟨σ1, ⟨hfr, _⟩, hregs, _⟩ := hsp
-  have h3 : σ'.regs 3 = s1.regs 3 := by rw [hregs]; exact hfr 3 (by simp)
-  have := regAfter_of_run (k := 3) hrun
-  have e : ({ s1 with pc := 0 } : State) = s1 := rfl
-  rw [e, hreg, h3] at this
-  revert this
-  decide +kernel
+/-! ### unary operators in a 64-bit computation (repaired: was class *unary-32-in-64*)
 
-/-- *unary-32-in-64*: `self.r2 = -self.vb` with vb = 1 gives 0xffffffff, not −1 -/
+`self.r2 = -self.vb`.  `Memory.calculate` loads the byte sign-extended to the 64 bits it is asked for but yields its
+own width flag (32 bits); `Unary.calculate` took that flag and negated in 32 bits, which clears the upper half.  Now
+`long = long or arg_long`: 64 bits if the caller asks for them or the operand has them. -/
 def e2 : SExpr := .neg (.var "vb")
 def p2 : Prog := ⟨[1, 10], stdVars, [.set (.reg .r 2) e2]⟩
 def s2 : State := st0 [(10, 4096)] [(4085, 1)]
-theorem unary_32_in_64_refuted : progTyped p2 = true ∧ (emitProg p2).toOption.isSome = true ∧
-    regAfter (codeOf p2) s2 2 = 4294967295 ∧ want p2 s2 e2 = 18446744073709551615 := by decide +kernel
+
+/-- what `self.r2 = -self.vb` emitted **before the fix** (the last instruction is the 32-bit `NEG`) -/
+def before_fix_code2 : List Insn :=
+  [⟨Consts.op_LD + Consts.op_B, 2, 10, -11, 0⟩, ⟨Consts.op_LSH + Consts.op_LONG, 2, 0, 0, 56⟩,
+   ⟨Consts.op_ARSH + Consts.op_LONG, 2, 0, 0, 56⟩, ⟨Consts.op_NEG, 2, 0, 0, 0⟩]
+
+/-- **regression witness** (formerly `unary_32_in_64_refuted`): with vb = 1 the old code leaves 0xffffffff in r2 where
+the property asks for −1; the repaired generator negates in 64 bits, `p2` satisfies every hypothesis of `C01_partial`
+and the code computes −1 -/
+theorem before_fix_unary_32_in_64 :
+    regAfter before_fix_code2 s2 2 = 4294967295 ∧ want p2 s2 e2 = 18446744073709551615 ∧
+    progOk p2 = true ∧
+    (emitProg p2).toOption = some [⟨Consts.op_LD + Consts.op_B, 2, 10, -11, 0⟩, ⟨Consts.op_LSH + Consts.op_LONG, 2, 0, 0, 56⟩,
+      ⟨Consts.op_ARSH + Consts.op_LONG, 2, 0, 0, 56⟩, ⟨Consts.op_NEG + Consts.op_LONG, 2, 0, 0, 0⟩] ∧
+    regAfter (codeOf p2) s2 2 = 18446744073709551615 := by decide +kernel
 
 /-- *narrow-reg-in-64*: `self.sr2 = self.sw3 * 1` with sw3 = −1 is zero-extended -/
 def e3 : SExpr := .bin .mul (.reg .sw 3) (.c 1)
@@ -491,6 +502,27 @@ def p3 : Prog := ⟨[1, 3, 10], stdVars, [.set (.reg .sr 2) e3]⟩
 def s3 : State := st0 [(3, 0xffffffff), (10, 4096)]
 theorem narrow_reg_in_64_refuted : progTyped p3 = true ∧ (emitProg p3).toOption.isSome = true ∧
     regAfter (codeOf p3) s3 2 = 4294967295 ∧ want p3 s3 e3 = 18446744073709551615 := by decide +kernel
+
+/-- **the generator still violates the full-strength statement** (witness: *narrow-reg-in-64*) -/
+theorem C01_full_refuted : ¬ C01_full := by
+  intro h
+  obtain ⟨ht, hacc, hreg, hwant⟩ := narrow_reg_in_64_refuted
+  obtain ⟨cs, hcs, σ', hrun, hsp⟩ := h p3 (codeOf p3) ht (codeOf_ok p3 hacc) s3
+  have hcs' : compileAll (layout p3.vars) p3.stmts =
+      some [CStmt.reg 2 true (.bin .mul (.reg 3 false true) (.const 1) true .plain)] := by
+    decide +kernel
+  rw [hcs'] at hcs
+  cases hcs
+  simp only [p3, specsS, specS] at hsp
+  obtain ⟨σ1, ⟨hval, _, _⟩, hregs, _⟩ := hsp
+  have hv := hval ⟨trivial, trivial, fun h => by cases h⟩
+  simp only [AgreeZ, if_true] at hv
+  have h2 : (σ'.regs 2).toNat = want p3 s3 e3 := by rw [hregs, hv]; rfl
+  have := regAfter_of_run (k := 2) hrun
+  have e : ({ s3 with pc := 0 } : State) = s3 := rfl
+  rw [e, hreg, h2, hwant] at this
+  revert this
+  decide
 
 /-! ### `Sum - expression`, `Sum ± int`, one `Sum` object used twice (repaired: was class *sum-minus*)
 
@@ -540,12 +572,30 @@ example : builtTree p4a (.bin .add e4s (.c 4)) = some (.bin .add (.reg 5 true fa
     progOk p4a = true ∧ (emitProg p4a).toOption.isSome = true ∧
     regAfter (codeOf p4a) s4 2 = 238 ∧ want p4a s4 e4a = 238 := by decide +kernel
 
-/-- *abs-32* (stage 3, corresponded only): `self.w2 = abs(self.sw3)` with sw3 = −1 is not negated -/
+/-! ### `abs` in a 32-bit computation (repaired: was class *abs-32*)
+
+`self.w2 = abs(self.sw3)`.  Before the fix `Absolute.calculate_unary` tested the sign with the 64-bit `JSGE` on a
+register whose upper half is zero after the 32-bit move, so nothing was negated.  Now the sign test and the negation
+have the width of the computation (`JSGE + SHORT`, 32-bit `NEG`); 64-bit computations emit what they did before. -/
 def e5 : SExpr := .abs (.reg .sw 3)
 def p5 : Prog := ⟨[1, 3, 10], stdVars, [.set (.reg .w 2) e5]⟩
 def s5 : State := st0 [(3, 0xffffffff), (10, 4096)]
-theorem abs_32_refuted : (emitProg p5).toOption.isSome = true ∧
-    regAfter (codeOf p5) s5 2 % 2 ^ 32 = 4294967295 ∧ want p5 s5 e5 % 2 ^ 32 = 1 := by decide +kernel
+
+/-- what `self.w2 = abs(self.sw3)` emitted **before the fix** -/
+def before_fix_code5 : List Insn :=
+  [⟨Consts.op_MOV + Consts.op_REG, 2, 3, 0, 0⟩, ⟨Consts.op_JSGE, 2, 0, 1, 0⟩, ⟨Consts.op_NEG + Consts.op_LONG, 2, 0, 0, 0⟩]
+
+/-- **regression witness** (formerly `abs_32_refuted`): with sw3 = −1 the old code leaves 0xffffffff in w2 where the
+property asks for 1; the repaired generator emits the 32-bit sign test and negation and computes 1; the 64-bit
+`self.r2 = abs(self.sr3)` is emitted as before -/
+theorem before_fix_abs_32 :
+    regAfter before_fix_code5 s5 2 % 2 ^ 32 = 4294967295 ∧ want p5 s5 e5 % 2 ^ 32 = 1 ∧
+    (emitProg p5).toOption = some [⟨Consts.op_MOV + Consts.op_REG, 2, 3, 0, 0⟩,
+      ⟨Consts.op_JSGE + Consts.op_SHORT, 2, 0, 1, 0⟩, ⟨Consts.op_NEG, 2, 0, 0, 0⟩] ∧
+    regAfter (codeOf p5) s5 2 % 2 ^ 32 = 1 ∧
+    (emitProg ⟨[1, 3, 10], stdVars, [.set (.reg .r 2) (.abs (.reg .sr 3))]⟩).toOption =
+      some [⟨Consts.op_MOV + Consts.op_REG + Consts.op_LONG, 2, 3, 0, 0⟩, ⟨Consts.op_JSGE, 2, 0, 1, 0⟩,
+        ⟨Consts.op_NEG + Consts.op_LONG, 2, 0, 0, 0⟩] := by decide +kernel
 
 /-- *divmod-negative* (stage 3): `self.sr2 = self.sr3 // 2` with sr3 = −6: the unsigned DIV gives neither the
 flooring nor the truncating quotient (both −3) -/
